@@ -72,10 +72,10 @@ func runC16Flag(c c16Flag) error {
 }
 
 var c16FlagSeeds = map[string][]string{
-	"rate":       {"50/1s", "0", "infinity", "100/m", "7/1m30s", "9223372036854775807/ns"},
+	"rate":       {"50/1s", "0", "infinity", "100/m", "7/1m30s", "9223372036854775807/ns", "nan", "NaN/1s", "Inf", "+inf/s", "0.5/1s", "1e400/s", "-0/s", "0x1p-2/s", "nan/nan"},
 	"header":     {"Content-Type: text/plain", "a:b", "X: y: z"},
-	"max-body":   {"-1", "10 MB", "10240 g", "2000", "1tB", "5 peta", "28 kilobytes", "18446744073709551615"},
-	"dns-ttl":    {"-1", "0", "50ms", "1h"},
+	"max-body":   {"-1", "10 MB", "10240 g", "2000", "1tB", "5 peta", "28 kilobytes", "18446744073709551615", "nan", "NaN MB", "inf", "1e400"},
+	"dns-ttl":    {"-1", "0", "50ms", "1h", "nan", "inf", "NaNs"},
 	"connect-to": {"google.com:80:localhost:6060", "a:1:b:2"},
 	"resolvers":  {"1.2.3.4", "1.2.3.4:53,8.8.8.8", "::1"},
 }
@@ -84,7 +84,9 @@ func TestC16Flags(t *testing.T) {
 	vh.Check(t, 3000, 60000, func(t *rapid.T) {
 		c := c16Flag{Flag: rapid.SampledFrom([]string{"rate", "header", "max-body", "dns-ttl", "connect-to", "resolvers"}).Draw(t, "flag")}
 		seed := rapid.SampledFrom(c16FlagSeeds[c.Flag]).Draw(t, "seed")
-		switch rapid.IntRange(0, 4).Draw(t, "kind") {
+		switch rapid.IntRange(0, 5).Draw(t, "kind") {
+		case 5:
+			c.Value = seed // the spellings of special values (not-a-number, infinities, hex floats) as they are
 		case 0:
 			c.Value = rapid.String().Draw(t, "any")
 		case 1:
